@@ -124,6 +124,42 @@ def run_case(case, ctx):
             res = float(numpy.max(numpy.abs(neg[sel] - numpy.exp(-wp[sel] / kT) * pos[sel]))) if sel.any() else 0.0
             tol = 1e-7 * fs if name == "from SpectralDensity" else 2e-2 * fs
             ctx.check("ft-correlation-detailed-balance", res, tol, {"source": name, "bath": b, "scale": fs, "points": int(sel.sum())})
+        # one spectral density object asked for bath functions at a sequence of temperatures (with or without a temperature of its own,
+        # or derived from a correlation function): each answer obeys the relation at the REQUESTED temperature
+        if not case["two"]:
+            Ts = [float("%.4g" % (b["T"] * f)) for f in (0.45, 1.9, 1.0, 0.7)]
+            srcs = []
+            with ctx.lib("spectral densities for the temperature sweep"):
+                srcs.append(("SpectralDensity with T", build.make_cf(t, b, cls="SpectralDensity")))
+                with qr.energy_units("1/cm"):
+                    srcs.append(("SpectralDensity without T", qr.SpectralDensity(t, {"ftype": b["ftype"], "reorg": b["reorg"], "cortime": b["cortime"]})))
+                srcs.append(("CorrelationFunction.get_SpectralDensity()", build.make_cf(t, b).get_SpectralDensity()))
+            for sname, sdx in srcs:
+                for T2 in Ts:
+                    try:
+                        with ctx.lib("get_FTCorrelationFunction(temperature=) [%s]" % sname):
+                            ftx = sdx.get_FTCorrelationFunction(temperature=T2)
+                            fx = numpy.real(numpy.array(ftx.data))
+                            wx = numpy.array(ftx.axis.data)
+                            cfx = sdx.get_CorrelationFunction(temperature=T2)
+                            Tlab = float(cfx.get_temperature())
+                    except Exception as e:
+                        if type(e).__name__ == "LibRaised":
+                            break
+                        raise
+                    kT2 = U.KB_INT_PER_K * T2
+                    fs = float(numpy.max(numpy.abs(fx)))
+                    pos, neg, wp = fx[1:], fx[1:][::-1], wx[1:]
+                    sel = (wp > 0) & (wp / kT2 < 30.0)
+                    res = float(numpy.max(numpy.abs(neg[sel] - numpy.exp(-wp[sel] / kT2) * pos[sel]))) if sel.any() else 0.0
+                    ctx.check("ft-correlation-detailed-balance", res, 1e-7 * fs, {"source": sname, "bath": b, "requested_T": T2, "scale": fs, "sweep": Ts})
+                    ctx.check("ft-correlation-detailed-balance", abs(Tlab - T2), 1e-9 * T2, {"source": sname, "what": "temperature carried by get_CorrelationFunction(temperature=)", "requested_T": T2, "got": Tlab})
+                    # odd part = spectral density whatever the temperature
+                    # (the object's own J(w): a density derived numerically from a correlation function is not the analytic one)
+                    Jown = numpy.real(numpy.array(sdx.data))[1:]
+                    ctx.check("ft-correlation-detailed-balance", float(numpy.max(numpy.abs((pos - neg) / 2.0 - Jown))), 1e-7 * fs,
+                              {"source": sname, "what": "odd part of the FT correlation function == the density's own J(w)", "requested_T": T2})
+                    ctx.sub(("T-sweep", sname, T2), nontrivial=True)
         ctx.key(("bath", b["reorg"], b["cortime"], b["T"], case["Nt"], case["dt"], case["two"]))
         ctx.nontrivial(n > 20)
         return
